@@ -390,3 +390,33 @@ func H_C14_rt_message_with_label_words() {
 	}
 	vReach("end")
 }
+
+// a message may itself contain the message delimiter: everything after the first '|' of the rule is the message
+func H_C14_rt_message_with_bar() {
+	a, b := vndString("a", 2), vndString("b", 2)
+	msg := a + "|" + b
+	if vndBool("twice") {
+		msg += "|"
+	}
+	vAssume(len(a) > 0)
+	vAssume(vValidUTF8(a))
+	vAssume(vValidUTF8(b))
+	for _, c := range []byte{',', '\'', '|'} {
+		vAssume(vNoByte(a+b, c))
+	}
+	key := vC14Keys[vndChoice("key", len(vC14Keys))]
+	val := ""
+	if vndBool("withVal") {
+		val = "1~2"
+	}
+	text := GenValidKV(key, val, msg)
+	parts := ValidNamesSplit(NewRule().Set("F", text).Get("F"))
+	vAssert(len(parts) == 1, "C14 roundtrip (message with '|'): one rule in, one rule out")
+	if len(parts) == 1 {
+		k, v, m := ParseValidNameKV(parts[0])
+		vAssert(k == key, "C14 roundtrip (message with '|'): key recovered")
+		vAssert(v == vC14Value(key, val), "C14 roundtrip (message with '|'): value recovered")
+		vAssert(m == vC14Label(msg), "C14 roundtrip (message with '|'): message recovered whole, with its label")
+	}
+	vReach("end")
+}
